@@ -211,6 +211,14 @@ static void fam_aead()
 			std::vector<size_t> lens = { 1, c - 1, c, c + 1, 2 * c, 2 * c + 1, 3 * c, 3 * c + 1 };
 			if (co == 0 || co == 1)
 				lens.push_back(4 * c + 5), lens.push_back(7 * c);
+			// chunk counts that carry the chunk index into its second (third) octet: the per-chunk loop and the last-chunk /
+			// final-tag code derive their nonces in separate copies of the same block (added after seeded change C20-4)
+			if (co == 0)
+			{
+				lens.push_back(255 * c + 1), lens.push_back(256 * c + 1), lens.push_back(257 * c + 1), lens.push_back(258 * c);
+				if (TH)
+					lens.push_back(513 * c + 1), lens.push_back(65537 * c + 1);
+			}
 			if (co == 10 && !TH)
 				lens = { c, 2 * c + 1 };
 			for (size_t li = 0; li < lens.size(); li++)
@@ -242,6 +250,7 @@ static void fam_aead()
 					continue;
 				}
 				size_t nchunks = (lens[li] + c - 1) / c;
+				bool longmsg = (nchunks > 16);
 				if (enc.size() != lens[li] + 16 * (nchunks + 1))
 					R->viol("aead/ciphertext-size", "ciphertext has " + str(enc.size()) + " octets, expected plaintext + 16*(chunks+1) = " + str(lens[li] + 16 * (nchunks + 1)), cid);
 				if (lens[li] <= 1200)
@@ -249,7 +258,7 @@ static void fam_aead()
 				// positions to flip
 				size_t hdr = pkt.size() - enc.size();
 				std::vector<size_t> pos;
-				if (co <= 1)
+				if (co <= 1 && !longmsg)
 					pos = all_positions(pkt.size());
 				else
 				{
@@ -259,6 +268,13 @@ static void fam_aead()
 					for (size_t k = 0; k < nchunks; k++)
 					{
 						size_t clen = std::min(c, lens[li] - k * c);
+						// long messages: the chunks around every carry of the index and the two ends
+						bool sel = !longmsg || k < 2 || k + 2 >= nchunks || ((k + 2) % 256) < 4 || ((k + 2) % 65536) < 4;
+						if (!sel)
+						{
+							off += clen + 16;
+							continue;
+						}
 						size_t cand[] = { 0, 1, clen / 2, clen - 2, clen - 1 };
 						for (int j = 0; j < 5; j++)
 							if (cand[j] < clen && (j == 0 || cand[j] != cand[j - 1]))
@@ -327,6 +343,18 @@ static void fam_aead()
 					cs.erase(cs.begin() + 1);
 					bad.push_back(assemble(cs, true)), names.push_back("middle-chunk-dropped");
 				}
+				if (nchunks >= 258)
+				{
+					std::vector<octets> cs(chunks);
+					std::swap(cs[255], cs[256]);
+					bad.push_back(assemble(cs, true)), names.push_back("chunks-255-256-swapped");
+					cs = chunks;
+					std::swap(cs[0], cs[256]);
+					bad.push_back(assemble(cs, true)), names.push_back("chunks-0-256-swapped");
+					cs = chunks;
+					cs.erase(cs.begin() + 256);
+					bad.push_back(assemble(cs, true)), names.push_back("chunk-256-dropped");
+				}
 				{
 					// other chunk size octet / other AEAD algorithm / other cipher in the header (associated data)
 					octets p;
@@ -366,7 +394,7 @@ static void fam_aead()
 					R->sample(cid, "OCB, 64-octet chunks, 193 octets: round trip, reference ciphertext, all octets flipped, chunks swapped/dropped");
 			}
 		}
-	R->bound = "AES-256 x {EAX,OCB} x chunk octets {0,1,6,10} x 8-10 lengths around chunk boundaries; all octets flipped for chunk octets 0,1; header/IV/tag/chunk-edge octets for 6,10";
+	R->bound = "AES-256 x {EAX,OCB} x chunk octets {0,1,6,10} x 8-10 lengths around chunk boundaries; all octets flipped for chunk octets 0,1; header/IV/tag/chunk-edge octets for 6,10; chunk octet 0 also with 256, 257, 258 chunks" + std::string(TH ? ", 514 and 65538 chunks" : "") + " (chunk index carries), flips at the chunks around every carry and at both ends";
 	R->caps.insert("aead chunk octets 6 and 10: header, IV, all tag octets and 5 octets per chunk flipped (not every ciphertext octet)");
 }
 
